@@ -29,14 +29,14 @@ LEVEL_TEXT = ('Lean 4 theorems (Mathlib matrices), for every basis matrix B with
               'coefficient vector for zernike_compose with the coefficients at the (regenerated) positions of the requested modes composes '
               'B·c; the two einsum contractions are REGENERATED from their subscript strings (Gen.fitContract / Gen.removeContract: the model\'s B·c is the generated contraction, and the generated fit contraction applied to the transposed pseudo-inverse is the abstract fit), the sample numbering of opd.ravel() and basis.reshape(k,-1) is regenerated with its order and proved to agree (C order on both sides); and three concrete Zernike bases (two unnormalised over Q with an all-true mask; one with the DEFAULT normalisation over R on a partial mask: modes [1,2,3], a masked-out sample, det(BtB) = 36) (one ray; a 2x2 array with cosine, sine and radial modes) satisfy the independence hypothesis. PARTIAL: that np.linalg.pinv(basis)·opd is the '
               'normal-equation solution, and that the code builds exactly this basis, are checked by correspondence only.')
-LEVEL_NOTE = ('Sign convention inherited from C11: odd-j modes are -sin(|m| theta) (the code evaluates sin(m theta) with m < 0), opposite to Noll (1976); fit, compose and remove use the same basis, so every clause here is independent of it. Known finding KF-C12-nonfinite-outside-mask (open): NaN / inf OPD samples outside the mask make every coefficient NaN. Trusted: Lean kernel and Mathlib; np.linalg.pinv(basis) = (BᵀB)⁻¹Bᵀ for full column rank and np.einsum contractions (compared on '
+LEVEL_NOTE = ('Sign convention inherited from C11: odd-j modes are -sin(|m| theta) (the code evaluates sin(m theta) with m < 0), opposite to Noll (1976); fit, compose and remove use the same basis, so every clause here is independent of it. Trusted: Lean kernel and Mathlib; np.linalg.pinv(basis) = (BᵀB)⁻¹Bᵀ for full column rank and np.einsum contractions (compared on '
               'every call with the Lean model run at Float; basis/compose values to 1e-8, fit/remove to 1e-10 x max(1, cond²) — the bound on the Float model\'s own rounding — while '
               'the property itself is judged on the library\'s results at 1e-12 x cond); the harness\'s numpy reference for conditioning and coordinates; float rounding; generator coverage (histories of '
               '6-9 calls, layouts, dtypes).')
 TECHNIQUE = 'Lean 4 proof over Mathlib matrices + executable Lean model of basis/fit/compose/remove with differential correspondence on call histories'
 GEN = ['ZernikeCalls', 'ZernikeR', 'Mesh', 'Util', 'Helper', 'Helper20', 'Hex', 'Extent', 'FieldAccum', 'FieldDispatch', 'FieldIdx', 'FieldMerge']      # every Gen module imported transitively
 OPS = ['C11', 'C12']
-RULE = ('extra cases: a mode requested twice (observed: remove unchanged, coefficient split) and OPDs with NaN / +-inf outside the mask (known finding KF-C12-nonfinite-outside-mask); cases = call histories of 6-9 compose/fit/remove calls in one process on one mask (circular / hexagonal / segmented / off-centre / '
+RULE = ('extra cases: a mode requested twice (observed: remove unchanged, coefficient split) and OPDs with NaN / +-inf outside the mask (must give exactly the result of zeros there); cases = call histories of 6-9 compose/fit/remove calls in one process on one mask (circular / hexagonal / segmented / off-centre / '
         'irregular weighted, sizes 9..22 even and odd; all built by the harness, not by the library): same modes with default then caller-supplied (shifted, rotated) coordinates, both '
         'normalisations, reversed/permuted mode orders, repeated calls; non-empty mode subsets of Noll 1..36 of size 1..6 in random order (never '
         'exactly 1..k), half of the histories with sets made of PAIRS OF ADJACENT indices (all 16 cosine/sine partner pairs (2,3)…(35,36) in rotation, every one in every quick run, and arbitrary (j, j+1); one history in ten with pairs from Noll 37..66), given as list, ndarray or scalar; '
@@ -49,7 +49,7 @@ TRUSTED = ['np.linalg.pinv returns (BᵀB)⁻¹Bᵀ for a full-column-rank B (co
 UNPROVEN = ['zernike_fit returns the normal-equation (least-squares) solution: rests on the pinv contract — correspondence only',
             'zernike_basis / zernike_compose evaluate the C11 mode model at the requested Noll indices and coordinates: the argument bindings and the '
             'position -> Noll index map are regenerated from the source (Gen/ZernikeCalls), the values are compared on every call — no theorem about the Python code itself']
-ASSUMPTIONS = ['the OPD is finite at every sample, also outside the mask (NaN / inf outside the mask turn every coefficient into NaN: known finding KF-C12-nonfinite-outside-mask; finite content outside the mask is generated and must not matter)',
+ASSUMPTIONS = ['the OPD is finite at every MASKED sample (content outside the mask — finite, NaN or ±inf — is generated and must not matter)',
                'modes linearly independent on the mask (IsUnit det(BᵀB)); numerically: the property is judged on the real functions for cond(B) <= 1e9 with '
                'tolerance 1e-12 x cond x scale (what a backward-stable least-squares solver delivers); the Lean model (Cramer at Float) is compared for k <= 6, cond <= 1e4',
                'zernike_remove always uses the library-default normalisation (normalize=True; it has no normalize parameter)',
@@ -189,7 +189,7 @@ def _medium_case(rng):
 
 def _special_cases(rng, tier):
     """duplicate mode requests (outside the theorems' hypothesis: what is observed is that a repeated mode changes nothing but the split of
-    its coefficient) and OPDs that are finite on the mask but NaN / inf outside it (KF-C12-nonfinite-outside-mask)"""
+    its coefficient) and OPDs that are finite on the mask but NaN / inf outside it (must equal the zero-outside result)"""
     out = []
     for q in range({'quick': 2, 'thorough': 30, 'search': 6}[tier]):
         size = int(rng.integers(10, 19)); m = _mask(rng, ['circle', 'hexagon', 'offcentre', 'irregular'][q % 4], size)
@@ -582,18 +582,3 @@ def shrink(c):
                 t = dict(s, modes=s['modes'][:q] + s['modes'][q + 1:])
                 if 'coeffs' in s: t['coeffs'] = s['coeffs'][:q] + s['coeffs'][q + 1:]
                 d = dict(c); d['steps'] = list(c['steps']); d['steps'][i] = t; yield d
-
-# ------------------------------------------------------------------------------------------ known finding
-KF_NONFINITE = 'KF-C12-nonfinite-outside-mask'
-
-def matches_finding(kf, case, msg):
-    if kf.get('id') != KF_NONFINITE: return False
-    return (case.get('kind') == 'nonfinite-outside' and all(s.get('outside') for s in case['steps'])
-            and 'non-finite' in msg and 'samples outside the mask must not matter' in msg)
-
-def replay_finding(kf):
-    if kf.get('id') != KF_NONFINITE: return False
-    c = kf['witness']
-    io = impl(c)
-    msg = oracle(c, io)
-    return bool(msg and matches_finding(kf, c, msg))
